@@ -172,13 +172,12 @@ void cc_dynamic_pool_reset(CC_DynamicPool* pool)
  */
 void* cc_dynamic_pool_malloc(size_t size, CC_DynamicPool* pool)
 {
-    if (size >= pool->top_page_size) {
+    if (size > pool->top_page_size) {
         return NULL;
     }
-    uint8_t* page_max = pool->low_ptr + pool->top_page_size;
-    uint8_t* new_high = pool->high_ptr + size;
+    size_t used = pool->free_ptr - pool->low_ptr;
 
-    if (new_high >= page_max) {
+    if (size > pool->top_page_size - used) {
         size_t next_max = (size_t) (pool->top_page_size * pool->exp_factor);
         if (pool->is_fixed || size > next_max) {
             return NULL;
